@@ -8,6 +8,7 @@ Key scope: non-empty strings whose brackets are properly nested (including
 dots, brackets, digits-only, unicode, '$', whitespace) and ints (incl. negative).
 """
 import itertools
+import re
 
 import pyglove as pg
 from pyvc.bounded import Recorder, rng
@@ -471,7 +472,97 @@ def _value_exprs(tier, seed, nrand):
     e = rand(r.randrange(1, 4), True)
     wrap = r.choice(['pg.Dict({"r": %s})', 'pg.List([%s])', 'A(%s)'])
     out.append((wrap % e, 'obj' if ('A(' in e or wrap.startswith('A(')) else 'sym'))
+  # plain dicts keyed by ints / by ints and strings (a dict is addressed by its keys).
+  for e in ("{5: 1}", "{0: 'va', 1: None}", "{1: [], 0: {}}", "{-1: 1, 'a': 2}", "{0: 1, '0': 2}", "{'a': {2: [1]}, 7: {'0': {0: 1}}}",
+            "[{3: 1}, {0: [1, 2]}]", "{10: {-1: {0: 'va'}}}"):
+    out.append((e, 'plain-int-keys'))
+  # equal but distinct containers at several places.
+  for e in ("[[1, 2], [1, 2]]", "{'a': {'k': [1]}, 'b': {'k': [1]}}", "[[], [], {}, {}]", "[{'k': 1}, [{'k': 1}], {'k': 1}]",
+            "{'a': [1, {'k': 2}], 'b': {'c': [1, {'k': 2}], 'd': 3}}"):
+    out.append((e, 'plain'))
+    out.append((f'pg.Dict({e})' if e.startswith('{') else f'pg.List({e})', 'sym'))
+  out.extend(_shared_exprs(r, nrand // 3))
   return list(dict.fromkeys(out))
+
+
+# Values in which the very same container object sits at several places (a DAG,
+# never a cycle).  Every place is a node of its own, with its own path.  The
+# expressions bind the shared object with ':=' so that they stay evaluable
+# source text for the model and for the witnesses.
+SHARED_PLAIN = ["[1, {'k': 2}]", "{'k': [1, 2]}", '[]', '{}', '[[1]]', "{'x.y': {'0': 1}}", "['va']", "{'a': None}"]
+SHARED_SYM = ["pg.Dict({'k': [1, 2]})", "pg.List([1, {'k': 2}])", 'A(1, [2])', 'pg.Dict()', "A({'x.y': 1})"]
+SHARED_CTX = ['[{S}, {s}]', '[{S}, 0, {s}]', "{{'a': {S}, 'b': {s}}}", "{{'a': {S}, 'b': {{'c': {s}, 'd': 3}}}}",
+              '[{S}, [{s}]]', '[[{S}], {s}]', "{{'a': {{'b': {S}}}, 'c': {s}}}", '[{S}, {s}, {s}]', '[(t := [{S}, {s}]), t]',
+              "{{'a': {{'x.y': {S}}}, '[0]': [0, {s}]}}", "[(t := {{'p': {S}}}), {{'q': t, 'r': {s}}}]",
+              "{{'a': {S}, 'b': [1, {{'k': 2}}], 'c': {s}}}"]
+SHARED_SYM_CTX = ["pg.Dict({{'a': {S}, 'b': {s}}})", 'pg.List([{S}, {s}, [{s}]])', 'A({S}, {s})', 'A([{S}], {{"k": {s}}})',
+                  "pg.Dict({{'a': {S}, 'b': pg.Dict({{'c': {s}}})}})"]
+
+
+def _drop_unused_bindings(expr, used):
+  import ast
+
+  class T(ast.NodeTransformer):
+    def visit_NamedExpr(self, node):
+      self.generic_visit(node)
+      return node if node.target.id in used else node.value
+  return ast.unparse(T().visit(ast.parse(expr, mode='eval')))
+
+
+def _shared_exprs(r, nrand):
+  out = []
+  for sh in SHARED_PLAIN:
+    for ctx in SHARED_CTX:
+      out.append((ctx.format(S=f'(s := {sh})', s='s'), 'shared-plain'))
+    for ctx in SHARED_SYM_CTX:
+      out.append((ctx.format(S=f'(s := {sh})', s='s'), 'shared-plain-below-sym'))
+  for sh in SHARED_SYM:
+    for ctx in SHARED_CTX:
+      out.append((ctx.format(S=f'(s := {sh})', s='s'), 'shared-sym-below-plain'))
+    for ctx in SHARED_SYM_CTX[:3]:
+      out.append((ctx.format(S=f'(s := {sh})', s='s'), 'shared-sym-below-sym'))
+
+  # seeded random DAGs: a sub-value that is complete may be referenced again
+  # anywhere to its right (never below itself).
+  def rand(depth, names, sym_ok, root=False):
+    if not root:
+      if names and r.random() < 0.3:
+        return r.choice(names)
+      if depth <= 0 or r.random() < 0.2:
+        return r.choice(LEAVES)
+    k = r.randrange(4 if sym_ok else 2)
+    if k == 0:
+      ks = r.sample(DKEYS, r.randrange(1, 4))
+      e = '{' + ', '.join(f'{x!r}: {rand(depth - 1, names, sym_ok)}' for x in ks) + '}'
+    elif k == 1:
+      e = '[' + ', '.join(rand(depth - 1, names, sym_ok) for _ in range(r.randrange(1, 4))) + ']'
+    elif k == 2:
+      ks = r.sample(DKEYS + [0, 5, -1], r.randrange(1, 3))
+      e = 'pg.Dict({' + ', '.join(f'{x!r}: {rand(depth - 1, names, sym_ok)}' for x in ks) + '})'
+    else:
+      e = f'A({rand(depth - 1, names, sym_ok)}, {rand(depth - 1, names, sym_ok)})'
+    if not root and r.random() < 0.6:
+      nm = f's{len(names)}'
+      e = f'({nm} := {e})'
+      names.append(nm)
+    return e
+
+  n = 0
+  tries = 0
+  while n < nrand and tries < nrand * 50:
+    tries += 1
+    names = []
+    sym_ok = tries % 2 == 0
+    e = rand(r.randrange(2, 5), names, sym_ok, root=True)
+    used = [nm for nm in names if len(re.findall(r'\b%s\b' % nm, e)) > 1]
+    if len(e) > 400 or not used:
+      continue
+    e = _drop_unused_bindings(e, used)
+    if sum(1 for _ in _mwalk(_model_eval(e))) > 150:
+      continue
+    n += 1
+    out.append((e, 'shared-mixed' if 'pg.' in e or 'A(' in e else 'shared-plain'))
+  return out
 
 
 def _node_kind(v):
@@ -522,7 +613,7 @@ def drv_query(tier, seed):
   ns = {'__name__': 'c10ns'}
   exec(PRE, ns)  # pylint: disable=exec-used
   def one(expr):
-    root = eval(expr, ns)  # pylint: disable=eval-used
+    root = eval(expr, dict(ns))  # pylint: disable=eval-used
     model = _model_eval(expr)
     for path, mnode, _ in _mwalk(model):
       node = _lookup(root, path)
@@ -604,7 +695,7 @@ def drv_traverse(tier, seed):
   ENTER, STOP, CONT = pg.TraverseAction.ENTER, pg.TraverseAction.STOP, pg.TraverseAction.CONTINUE
   wtrav = ('log = []\nret = pg.traverse(root, lambda k, v, p: (log.append(k.keys), pg.TraverseAction.ENTER)[1])\n')
   def one(expr, flavour):
-    root = eval(expr, ns)  # pylint: disable=eval-used
+    root = eval(expr, dict(ns))  # pylint: disable=eval-used
     model = _model_eval(expr)
     mpre = list(_mwalk(model))
     mpost = list(_mpost(model))
@@ -726,7 +817,7 @@ def drv_traverse(tier, seed):
     if isinstance(root, pg.Symbolic):
       ints = [p for p, v, _ in mpre if type(v) is int]
       if ints:
-        clone = eval(expr, ns)  # pylint: disable=eval-used
+        clone = eval(expr, dict(ns))  # pylint: disable=eval-used
         g = _out(clone.rebind, lambda k, v: v + 100 if type(v) is int else v)
         okr = g[0] == 'ok'
         if okr:
@@ -801,6 +892,36 @@ def _flat_values(tier, seed):
     e = rand(r.randrange(2, 6))
     if e[0] in '[{' and len(e) > 2:
       out.append(e)
+  # dicts keyed by ints that do not form range(0, N) (those are, in path-keyed
+  # form, indistinguishable from lists), alone and next to string keys.
+  for ks in ([5], [1, 2], [2, 1], [-1], [-1, 0], [1, 'a'], ['0', 1], [10, 2, 7], [0, 2], [7, '[0]', 'x.y']):
+    body = ', '.join(f'{k!r}: {FLEAVES[i % 4]}' for i, k in enumerate(ks))
+    out.append(f'{{{body}}}')
+    out.append(f"{{'a': {{{body}}}, 'b': [{{{body}}}, 1]}}")
+    out.append(f"[{{{body}}}, [0, {{{body}}}]]")
+    out.append(f"{{{ks[-1]!r}: {{{body}}}, 3: 1}}")
+
+  def rand_ik(depth):
+    if depth <= 0 or r.random() < 0.25:
+      return r.choice(FLEAVES)
+    x = r.random()
+    if x < 0.35:
+      ks = r.sample([1, 2, 3, 5, 10, -1, -2], r.randrange(1, 4)) + r.sample(FKEYS, r.randrange(0, 2))
+      r.shuffle(ks)
+      return '{' + ', '.join(f'{k!r}: {rand_ik(depth - 1)}' for k in ks) + '}'
+    if x < 0.65:
+      ks = r.sample(FKEYS, r.randrange(1, 4))
+      return '{' + ', '.join(f'{k!r}: {rand_ik(depth - 1)}' for k in ks) + '}'
+    return '[' + ', '.join(rand_ik(depth - 1) for _ in range(r.randrange(1, 4))) + ']'
+  for _ in range(300 if tier == 'quick' else 5000):
+    e = rand_ik(r.randrange(2, 5))
+    if e[0] in '[{' and len(e) > 2:
+      out.append(e)
+  # the same container object at several places: every place has its own paths.
+  for sh in SHARED_PLAIN:
+    for ctx in SHARED_CTX:
+      out.append(ctx.format(S=f'(s := {sh})', s='s'))
+  out.extend(e for e, f in _shared_exprs(rng(seed, 'c10-flat-shared'), 60 if tier == 'quick' else 1000) if f == 'shared-plain')
   return list(dict.fromkeys(out))
 
 
@@ -816,10 +937,59 @@ def _deep_same(a, b):
 
 def _has_complex_key(v):
   if isinstance(v, dict):
-    return any(any(c in k for c in '[].') for k in v) or any(_has_complex_key(x) for x in v.values())
+    return any(isinstance(k, str) and any(c in k for c in '[].') for k in v) or any(_has_complex_key(x) for x in v.values())
   if isinstance(v, list):
     return any(_has_complex_key(x) for x in v)
   return False
+
+
+def _has_int_dict_key(v):
+  if isinstance(v, dict):
+    return any(isinstance(k, int) for k in v) or any(_has_int_dict_key(x) for x in v.values())
+  if isinstance(v, list):
+    return any(_has_int_dict_key(x) for x in v)
+  return False
+
+
+def _has_multi_list(v):
+  if isinstance(v, dict):
+    return any(_has_multi_list(x) for x in v.values())
+  if isinstance(v, list):
+    return len(v) > 1 or any(_has_multi_list(x) for x in v)
+  return False
+
+
+def _deep_same_sym(a, b):
+  """_deep_same where a may hold symbolic containers for plain ones."""
+  if isinstance(b, dict):
+    return isinstance(a, dict) and len(a) == len(b) and all(k in a and _deep_same_sym(a[k], b[k]) for k in b)
+  if isinstance(b, list):
+    return isinstance(a, list) and len(a) == len(b) and all(_deep_same_sym(x, y) for x, y in zip(a, b))
+  return type(a) is type(b) and a == b
+
+
+def _partial_form(v, r, shuffled):
+  """A path-keyed form of v in which each non-empty sub-container is, by a
+  seeded coin, either kept nested or spelled as entries `<key><sub-path>`."""
+  def entries(c):
+    its = list(c.items()) if isinstance(c, dict) else list(enumerate(c))
+    for k, cc in its:
+      if isinstance(cc, (dict, list)) and cc and r.random() < 0.6:
+        for sp, sv in entries(cc):
+          yield (k,) + sp, sv
+      else:
+        yield (k,), form(cc)
+
+  def form(x):
+    if isinstance(x, dict) and x:
+      its = list(entries(x))
+      if shuffled:
+        r.shuffle(its)
+      return {str(KP(list(p))): f for p, f in its}
+    if isinstance(x, list) and x:
+      return [form(c) for c in x]
+    return x
+  return form(v)
 
 
 def drv_flatten(tier, seed):
@@ -827,11 +997,20 @@ def drv_flatten(tier, seed):
   rec = Recorder('C10', 'utils.flatten / utils.canonicalize are inverse; flatten keys are the leaf paths',
                  scope=f'{len(vals)} nested dict/list values: exhaustive depth<=1 over {len(FKEYS)} keys x {len(FLEAVES)} leaves, chains to depth 3, seeded random depth<=5')
   chk = _Chk(rec)
+  rp = rng(seed, 'c10-flat-perm')
+  counter = [0]
+
   def one(expr):
-    v = eval(expr)  # pylint: disable=eval-used
+    v = eval(expr, {}, {})  # pylint: disable=eval-used
     cls = 'root-list' if isinstance(v, list) else 'root-dict'
     cx = _has_complex_key(v)
     cls += '/complex-keys' if cx else '/simple-keys'
+    ik = _has_int_dict_key(v)
+    if ik:
+      cls += '/int-dict-keys'
+    if ':=' in expr:
+      cls += '/shared-containers'
+    counter[0] += 1
     w0 = f'import pyglove as pg\nv = {expr}\n'
     leaves = [(p, n) for p, n, _ in _mwalk(v) if p and not _mchildren(n)]
     g = _out(pg.utils.flatten, v, False)
@@ -843,9 +1022,52 @@ def drv_flatten(tier, seed):
       c = _out(pg.utils.canonicalize, g[1])
       chk(f'canonicalize-inverts-flatten/{cls}', expr, c[0] == 'ok' and _deep_same(c[1], v), lambda: f'canonicalize(flatten(v, False)) -> {c}',
           lambda: w0 + 'assert pg.utils.canonicalize(pg.utils.flatten(v, False)) == v')
-      c2 = _out(pg.utils.canonicalize, g[1], False)
-      chk(f'canonicalize-inverts-flatten.sparse_list_as_dict=False/{cls}', expr, c2[0] == 'ok' and _deep_same(c2[1], v), lambda: f'{c2}',
-          lambda: w0 + 'assert pg.utils.canonicalize(pg.utils.flatten(v, False), False) == v')
+      if not ik:     # (that flag turns int-keyed dicts into lists: not an inverse for them)
+        c2 = _out(pg.utils.canonicalize, g[1], False)
+        chk(f'canonicalize-inverts-flatten.sparse_list_as_dict=False/{cls}', expr, c2[0] == 'ok' and _deep_same(c2[1], v), lambda: f'{c2}',
+            lambda: w0 + 'assert pg.utils.canonicalize(pg.utils.flatten(v, False), False) == v')
+      # A path-keyed dict is a mapping from paths to values: the order in which
+      # its entries are listed is immaterial.
+      items = list(g[1].items())
+      n = len(items)
+      if okf and n >= 2:
+        pcls = ('list-elements' if _has_multi_list(v) else 'dict-entries-only') + ('/int-dict-keys' if ik else '')
+        if n <= 3:
+          perms = [list(q) for q in itertools.permutations(items)][1:]
+        else:
+          perms = [items[::-1], items[1:] + items[:1], items[n // 2:] + items[:n // 2], items[1::2] + items[0::2]]
+          for _ in range(2):
+            q = list(items)
+            rp.shuffle(q)
+            perms.append(q)
+        for pi, q in enumerate(perms):
+          d = dict(q)
+          c = _out(pg.utils.canonicalize, d)
+          chk(f'canonicalize.entry-order-immaterial/{pcls}', (expr, pi), c[0] == 'ok' and _deep_same(c[1], v),
+              lambda: f'canonicalize({d!r}) -> {c}, want {v!r}',
+              lambda: w0 + f'flat = {d!r}\nassert pg.utils.canonicalize(flat) == v')
+          if not ik and pi < 2:
+            c = _out(pg.utils.canonicalize, d, False)
+            chk(f'canonicalize.entry-order-immaterial.sparse_list_as_dict=False/{pcls}', (expr, pi), c[0] == 'ok' and _deep_same(c[1], v),
+                lambda: f'canonicalize({d!r}, False) -> {c}, want {v!r}',
+                lambda: w0 + f'flat = {d!r}\nassert pg.utils.canonicalize(flat, False) == v')
+      # Partially flattened forms: any sub-value may be given nested or as
+      # path-keyed entries of an enclosing dict; the paths compose.
+      if n >= 1 and counter[0] % 2 == 0:
+        for shuffled in (False, True):
+          pf = _partial_form(v, rp, shuffled)
+          c = _out(pg.utils.canonicalize, pf)
+          chk(f'canonicalize.partially-flattened/{"shuffled" if shuffled else "in-order"}/{cls}', (expr, repr(pf)), c[0] == 'ok' and _deep_same(c[1], v),
+              lambda: f'canonicalize({pf!r}) -> {c}, want {v!r}',
+              lambda: w0 + f'form = {pf!r}\nassert pg.utils.canonicalize(form) == v')
+      # symbolic containers are dicts / lists too.
+      if counter[0] % 4 == 0 and not ik:
+        sv = _out(lambda: pg.Dict(v) if isinstance(v, dict) else pg.List(v))
+        if sv[0] == 'ok':
+          gs = _out(pg.utils.flatten, sv[1], False)
+          oks = gs[0] == 'ok' and isinstance(gs[1], dict) and list(gs[1].keys()) == list(want.keys()) and all(_deep_same_sym(gs[1][k], want[k]) for k in want)
+          chk(f'flatten.symbolic-input/{cls}', expr, oks, lambda: f'{gs}, want {want}',
+              lambda: w0 + f'sv = pg.Dict(v) if isinstance(v, dict) else pg.List(v)\nassert pg.utils.flatten(sv, False) == {want!r}')
       # every flattened key addresses its leaf.
       okk = all(_out(KP.parse(k).query, v)[1:] == (x,) or _deep_same(_out(KP.parse(k).query, v)[1], x) for k, x in g[1].items())
       chk(f'flatten.key-looks-up-leaf/{cls}', expr, okk, 'a flattened key does not address its value',
@@ -859,7 +1081,7 @@ def drv_flatten(tier, seed):
       chk(f'canonicalize.identity-on-canonical/{cls}', expr, c[0] == 'ok' and _deep_same(c[1], v), lambda: f'{c}',
           lambda: w0 + 'import copy; assert pg.utils.canonicalize(copy.deepcopy(v)) == v')
     # flatten does not modify its argument.
-    chk(f'flatten.argument-unchanged/{cls}', expr, _deep_same(v, eval(expr)), 'flatten/canonicalize modified the input',  # pylint: disable=eval-used
+    chk(f'flatten.argument-unchanged/{cls}', expr, _deep_same(v, eval(expr, {}, {})), 'flatten/canonicalize modified the input',  # pylint: disable=eval-used
         lambda: w0 + f'pg.utils.flatten(v, False); assert v == {expr}')
 
   for expr in vals:
